@@ -472,8 +472,10 @@ def parse_instr(mod, s):
         a = (t, v, et, ev, idx)
     elif op == 'atomicrmw':
         p.accept('volatile'); bop = p.next()[1]; pt = p.ty(); ptr = p.val(pt); p.expect(','); t = p.ty(); v = p.val(t); a = (bop, ptr, t, v)
-    elif op == 'cmpxchg' or op == 'fence':
-        a = ('unsupported', s)
+    elif op == 'cmpxchg':
+        p.accept('weak'); p.accept('volatile'); pt = p.ty(); ptr = p.val(pt); p.expect(','); t = p.ty(); cmpv = p.val(t); p.expect(','); t2 = p.ty(); newv = p.val(t2); a = (ptr, t, cmpv, newv)
+    elif op == 'fence':
+        a = ('fence', s)
     elif op == 'freeze':
         t = p.ty(); a = (t, p.val(t))
     else:
